@@ -250,7 +250,7 @@ Record op := {
   op_hookfail : option nat
 }.
 
-Inductive event := EvOk (h count : nat) | EvErr (h : nat).
+Inductive event := EvOk (h count : nat) | EvErr (h count : nat).   (* count of an error event: what handle returned *)
 
 Inductive result :=
 | RExpOk (h : nat) | RExpErr
@@ -370,7 +370,7 @@ Definition sync_announce (fx : fixes) (w : world) (seg : nat) (o : op) (st : sst
       match make_syncer w st0 (op_addrs o) (op_discfail o) with
       | (None, st1) =>
           if fx_announce fx then
-            (set_cache st1 (remove h (s_cache st1)), mk_obs RAnnErr [EvErr h] (net0 o) [])
+            (set_cache st1 (remove h (s_cache st1)), mk_obs RAnnErr [EvErr h 0] (net0 o) [])
           else (st1, mk_obs RAnnSilent [] (net0 o) [])
       | (Some sy, st1) =>
           let r := handle fx w seg h (s_latest st1) (op_hookfail o) sy (net0 o) (s_store st1) in
@@ -379,7 +379,7 @@ Definition sync_announce (fx : fixes) (w : world) (seg : nat) (o : op) (st : sst
              mk_obs RAnnOk [EvOk h (h_count r)] (h_net r) (h_hooks r))
           else
             (with_sync st1 (h_sy r) (h_store r) (s_latest st1) (remove h (s_cache st1)),
-             mk_obs RAnnErr [EvErr h] (h_net r) (h_hooks r))
+             mk_obs RAnnErr [EvErr h (h_count r)] (h_net r) (h_hooks r))
       end.
 
 Definition step (fx : fixes) (w : world) (seg : nat) (o : op) (st : sstate) : sstate * obs :=
@@ -417,7 +417,7 @@ Definition seen_eqb (a b : seen) : bool :=
 Definition event_eqb (a b : event) : bool :=
   match a, b with
   | EvOk h c, EvOk h' c' => (h =? h') && (c =? c')
-  | EvErr h, EvErr h' => h =? h'
+  | EvErr h c, EvErr h' c' => (h =? h') && (c =? c')
   | _, _ => false
   end.
 
